@@ -29,14 +29,17 @@ const (
 	uRune
 	uUTF16
 	uLine
+	uPartial // a count of *some* of the runes of a string (a hand-written width measure that skips characters)
 	uConflict
 )
 
 func (u unit) String() string {
-	return [...]string{"unknown", "none", "byte", "rune", "utf16", "line", "conflict"}[u]
+	return [...]string{"unknown", "none", "byte", "rune", "utf16", "line", "partial-rune-count", "conflict"}[u]
 }
 
-func (u unit) known() bool { return u == uByte || u == uRune || u == uUTF16 || u == uLine }
+func (u unit) known() bool {
+	return u == uByte || u == uRune || u == uUTF16 || u == uLine || u == uPartial
+}
 
 func joinUnit(a, b unit) unit {
 	switch {
@@ -441,6 +444,12 @@ func (e *unitsEngine) flow(f *ssa.Function, reporting bool) bool {
 				upd(x, e.get(x.X))
 			case *ssa.Phi:
 				if !isIntType(x.Type()) {
+					continue
+				}
+				// a counter of a loop over the runes of a string: counted in every iteration it is the rune count, counted
+				// in some iterations only (a measure that skips combining marks, say) it is a quantity of its own
+				if cu, ok := runeCounterUnit(x); ok {
+					upd(x, cu)
 					continue
 				}
 				u := uUnknown
@@ -1255,4 +1264,63 @@ func sliceReadsLoadErr(v ssa.Value, name string, isField func(ssa.Value, string)
 		}
 	}
 	return false
+}
+
+
+// runeCounterUnit: x is a counter of a `for ... range <string>` loop: a phi in the block of the string iterator's
+// Next, 0 on entry, and on the way back either itself + 1 in every iteration (rune count) or a merge of itself and
+// itself + 1 (a count of some of the runes).
+func runeCounterUnit(x *ssa.Phi) (unit, bool) {
+	b := x.Block()
+	isStr := false
+	for _, ins := range b.Instrs {
+		if nx, ok := ins.(*ssa.Next); ok && nx.IsString {
+			isStr = true
+		}
+	}
+	if !isStr || len(x.Edges) < 2 {
+		return 0, false
+	}
+	isInc := func(v ssa.Value) bool {
+		bo, ok := v.(*ssa.BinOp)
+		if !ok || bo.Op != token.ADD || bo.X != ssa.Value(x) {
+			return false
+		}
+		k, ok := bo.Y.(*ssa.Const)
+		return ok && k.Value != nil && k.Value.ExactString() == "1"
+	}
+	zero := func(v ssa.Value) bool {
+		k, ok := v.(*ssa.Const)
+		return ok && k.Value != nil && k.Value.ExactString() == "0"
+	}
+	nZero, nInc, nSame, nOther := 0, 0, 0, 0
+	var classify func(v ssa.Value, depth int)
+	classify = func(v ssa.Value, depth int) {
+		switch {
+		case zero(v):
+			nZero++
+		case isInc(v):
+			nInc++
+		case v == ssa.Value(x):
+			nSame++
+		default:
+			if m, ok := v.(*ssa.Phi); ok && depth < 3 && m != x {
+				for _, e := range m.Edges {
+					classify(e, depth+1)
+				}
+				return
+			}
+			nOther++
+		}
+	}
+	for _, e := range x.Edges {
+		classify(e, 0)
+	}
+	if nZero == 1 && nOther == 0 && nInc > 0 {
+		if nSame == 0 {
+			return uRune, true
+		}
+		return uPartial, true
+	}
+	return 0, false
 }
